@@ -156,6 +156,12 @@ def run(case):
         ctx = f"MinErrorFlow[{case['fam']}]({wt}, {variant}={ {k: v for k, v in kw.items() if k != 'weight_type'} })"
         tags[variant] += 1
         Gc = drivers.build_graph(case)
+        if variant == "numpy":
+            # the same weights as numpy scalars (what one gets from numpy / pandas data)
+            import numpy as np
+            for _, _, d_ in Gc.edges(data=True):
+                if "flow" in d_:
+                    d_["flow"] = np.int64(d_["flow"])
         try:
             from .. import faults
             with faults.ValueNoise(0.0 if not variant.startswith("noise") else (-5e-10 if variant.endswith("-") else 5e-10)):
@@ -232,6 +238,7 @@ def run(case):
         one("plain", {}, wt)
     one("noise-", {}, "int")
     one("noise+", {}, "int")
+    one("numpy", {}, "int")
     if not case["full"] or len(viol) > 3:
         return _ret(viol, nt, tags)
     for e in E:
